@@ -67,6 +67,14 @@ type c32Case struct {
 
 const c32MaxID = 7
 
+// c32NameReuse widens the generator to directories in which two different
+// repository ids use the same repository name (index vs trash), i.e. map to
+// the same shard file name. cleanup.go is known to overwrite one with the
+// other there (finding c32KnownNameReuse); off by default.
+var c32NameReuse = os.Getenv("VERIF_C32_NAME_REUSE") == "1"
+
+const c32KnownNameReuse = "C32-shard-file-name-shared-by-two-ids"
+
 var c32Epoch = time.Date(2024, 3, 10, 12, 0, 0, 0, time.UTC)
 
 // members of the pre-built compound shards (repository 3 and 5 occur twice)
@@ -76,18 +84,20 @@ func c32Name(id uint32) string { return fmt.Sprintf("r%d", id) }
 
 func genC32(rt *rapid.T) c32Case {
 	g := kit.G{T: rt}
-	c := c32Case{ShardMerging: g.Int(0, 9, "merging") >= 3}
+	c := c32Case{ShardMerging: g.Int(0, 9, "merging") >= 2}
 	name := func(id uint32) string {
 		switch v := g.Int(0, 19, "namekind"); {
 		case v == 7 || v == 8 || v == 9:
 			return c32Name(id) + "x" // renamed
+		case v == 13 && c32NameReuse:
+			return c32Name(id%c32MaxID + 1) // the name of another repository id
 		default:
 			return c32Name(id)
 		}
 	}
 	for id := uint32(1); id <= c32MaxID; id++ {
 		// index placement
-		switch g.Int(0, 7, "index") {
+		switch g.Int(0, 9, "index") {
 		case 0, 1: // absent
 		case 2, 3:
 			c.Simple = append(c.Simple, c32Simple{ID: id, Name: name(id), N: 0, Meta: g.Int(0, 9, "meta") == 5})
@@ -115,12 +125,12 @@ func genC32(rt *rapid.T) c32Case {
 	}
 	if c.ShardMerging {
 		for p := range c32PoolMembers {
-			if g.Int(0, 9, "compound") < 4 {
+			if g.Int(0, 9, "compound") < 3 {
 				continue
 			}
 			cs := c32Compound{Pool: p}
 			for _, id := range c32PoolMembers[p] {
-				if g.Int(0, 9, "tomb") >= 6 {
+				if g.Int(0, 9, "tomb") >= 5 {
 					cs.Tomb = append(cs.Tomb, id)
 				}
 			}
@@ -349,7 +359,13 @@ func c32Materialize(c *c32Case, dir string) error {
 			return err
 		}
 		if s.Meta {
-			if err := index.UnsetTombstone(p, s.ID); err != nil {
+			// v16 (simple) shards carry a single repository object in the
+			// sidecar, as mergeMeta writes it
+			mb, err := json.Marshal(&zoekt.Repository{ID: s.ID, Name: s.Name, RawConfig: map[string]string{"public": "1"}})
+			if err != nil {
+				return err
+			}
+			if err := os.WriteFile(p+".meta", mb, 0o644); err != nil {
 				return err
 			}
 		}
@@ -717,6 +733,10 @@ func runC32(rec *kit.Recorder, c c32Case) error {
 		}
 		labels, nt, err := c32Check(before, after, assigned, now, i)
 		if err != nil {
+			if d, ok := err.(*kit.Discrepancy); ok && clash {
+				d.Known = c32KnownNameReuse
+				d.Detail += " [two repository ids share a shard file name in this directory]"
+			}
 			return err
 		}
 		if tmps, _ := filepath.Glob(filepath.Join(dir, "*.tmp")); len(c.Tmp) > 0 && len(tmps) == 0 {
